@@ -187,7 +187,9 @@ GOALS = [call(F('p', X)), call(F('p', Y)), call(F('assertz', F('p', c))), call(F
          # a goal with a side effect under once/1: backtracking into it must not run it further
          call(F('once', F('retract', F('p', X)))),
          # ... and under \+ : negation asks its goal for ONE answer
-         ('\\+', call(F('retract', F('p', X))))]
+         ('\\+', call(F('retract', F('p', X)))),
+         # retractall with an open pattern has ONE answer that binds nothing: the goals after it see X free
+         call(F('retractall', F('p', X))), call(F('=', X, c))]
 
 
 def body_cases(gmax):
